@@ -76,3 +76,19 @@ package messageview
 //@   ensures[offsets-ordered] result == nil ==> 0 <= mv.bodyoffset && mv.bodyoffset <= mv.traileroffset && mv.traileroffset <= len(mv.message)
 //@   ensures[replaced-body-reads-the-bytes-of-the-old-one] res.Body != old(res.Body) ==> res.Body == mvNop && mvNopSrc == iface(mvReader) && mvReaderData == mvReadData && mvReadSrc == old(res.Body)
 //@   at call 1 of Bytes before assert[chunked-message-ends-with-the-blank-line] mv.chunked ==> buf.mvEndsBlank
+
+//@ func New
+//@   serves C15
+//@   modifies nothing
+//@   ensures result != nil && fresh(result)
+//@ func (*MessageView).SkipBody
+//@   serves C15
+//@   requires mv != nil
+//@   modifies mv.skipBody
+//@   ensures mv.skipBody == skipBody
+//@ func (*MessageView).Reader
+//@   trusted
+//@   modifies nothing
+//@ func Decode
+//@   trusted
+//@   modifies nothing
